@@ -1,5 +1,5 @@
 ------------------------------- MODULE MCKmer -------------------------------
-(* C10: bounded exhaustive model (pure-function pattern).  Init enumerates the inputs of seven
+(* C10: bounded exhaustive model (pure-function pattern).  Init enumerates the inputs of eight
    families; `exp` holds the specification's answers; the invariants state that the
    implementation-shaped definitions equal the declarative ones on the input at hand.
 
@@ -18,10 +18,14 @@
      kind = "seltab"  label ids x label positions x      -> the table built from k-mer selections /
                       k-mer selections                       explicit positions, counts, lookups,
                                                              match_kmer_selection, match_table
+     kind = "forms"   data set x array parameter x       -> every array argument as a view (buffer,
+                      memory form of that argument           offset, strides, dtype, flags) and the
+                      (strides, order, dtype, read-only,     answers of the builders / queries /
+                      list)                                  selectors on the values the views denote
      kind = "mini"    row of keys x window               -> minimizer positions
      kind = "select"  sequence                           -> minimizers / syncmers / mincode under
                                                              several parameter sets and orders *)
-EXTENDS KmerIndex, KmerSelect, TLC
+EXTENDS KmerIndex, KmerSelect, ArrayForm, TLC
 
 CONSTANTS KmersLen2,    \* kmers family: sequences over 2 symbols up to this length
           KmersLen3,    \* ... over 3 symbols
@@ -31,7 +35,9 @@ CONSTANTS KmersLen2,    \* kmers family: sequences over 2 symbols up to this len
           MiniLen,      \* mini family: rows over 0..3 up to this length
           SelLen,       \* select family: sequences over 2 symbols up to this length (3 symbols: SelLen - 1)
           SimLevel,     \* similar family: 1 = quick value sets, 2 = thorough value sets
-          LabelRefLen   \* table group 5: 0 = three fixed first references, n = all over 2 symbols up to length n
+          LabelRefLen,  \* table group 5: 0 = three fixed first references, n = all over 2 symbols up to length n
+          FormLevel     \* forms family: 1 = every form with the documented dtype, two forms with the other dtypes
+                        \* and read-only; 2 = every form x every dtype x writable / read-only
 
 VARIABLES kind, inp, exp
 vars == <<kind, inp, exp>>
@@ -254,6 +260,177 @@ SelectExp(s, A) ==
       minc   |-> [c \in 1..4 |-> [plain |-> IF TooShort(s, Continuous(2)) THEN SR("Rejected", <<>>) ELSE Op_Mincode(c2, c2, 0, NumCodes(A, 2), c),
                                    freq  |-> IF TooShort(s, Continuous(2)) THEN SR("Rejected", <<>>) ELSE Op_Mincode(c2, FreqKeys(f2, c2), 0, NumCodes(A, 2), c)]]]
 
+(* ------------------------------------------------------------------ forms family *)
+(* The memory form of the array arguments (ArrayForm.tla).  A case is a data set, ONE array
+   parameter of the API (role) and a variant of its form - every named stride pattern with the
+   documented dtype, other dtypes, read-only buffers, Python lists - or role "all": every array
+   parameter at once in a non-contiguous form.  `views` are the arguments as the driver has to
+   lay them out in memory, `res` the answers, computed from the values the views denote. *)
+FormData ==
+  <<[A |-> 2, sp |-> <<0, 1>>, lab |-> FALSE, sel |-> TRUE, p0 |-> 0,
+     refs |-> <<[id |-> 7, seq |-> <<0, 1, 1, 0, 1, 1>>, mask |-> NoneV],
+                [id |-> 2, seq |-> <<1, 1, 1, 0>>, mask |-> Opt(<<FALSE, TRUE, FALSE, FALSE>>)]>>,
+     q |-> <<1, 0, 1, 1, 1, 0>>, qmask |-> Opt(<<FALSE, FALSE, FALSE, TRUE, FALSE, FALSE>>),
+     M |-> Mat2, t |-> 1, ss |-> <<0, 1, 1, 0, 0, 1, 0, 1>>],
+    [A |-> 3, sp |-> <<0, 1>>, lab |-> FALSE, sel |-> TRUE, p0 |-> 0,
+     refs |-> <<[id |-> 5, seq |-> <<2, 0, 1, 1, 2>>, mask |-> Opt(<<TRUE, FALSE, FALSE, FALSE, FALSE>>)],
+                [id |-> 6, seq |-> <<0, 1, 2>>, mask |-> NoneV]>>,
+     q |-> <<0, 1, 2, 2, 0, 1>>, qmask |-> Opt(<<FALSE, FALSE, TRUE, FALSE, FALSE, FALSE>>),
+     M |-> Mat3, t |-> 3, ss |-> <<2, 0, 1, 1, 2, 0, 0>>],
+    \* spaced k-mers (no ignore masks: spaced k-mers with a mask are the known defect C10-spaced-kmer-mask)
+    [A |-> 2, sp |-> <<0, 1, 3>>, lab |-> FALSE, sel |-> FALSE, p0 |-> 0,
+     refs |-> <<[id |-> 3, seq |-> <<0, 1, 1, 0, 1, 0, 0>>, mask |-> NoneV],
+                [id |-> 4, seq |-> <<1, 1, 0, 1, 1>>, mask |-> NoneV]>>,
+     q |-> <<1, 1, 0, 0, 1, 0, 1>>, qmask |-> NoneV,
+     M |-> Mat2, t |-> 4, ss |-> <<0, 1>>],
+    \* ids and explicit positions are uint32 labels around 2^31 and 2^32
+    [A |-> 2, sp |-> <<0, 1>>, lab |-> TRUE, sel |-> FALSE, p0 |-> U32(32767, 65535),
+     refs |-> <<[id |-> U32(32767, 65535), seq |-> <<0, 1, 1, 0, 1>>, mask |-> NoneV],
+                [id |-> U32(32768, 0), seq |-> <<1, 1, 0>>, mask |-> NoneV]>>,
+     q |-> <<1, 0, 1>>, qmask |-> NoneV,
+     M |-> Mat2, t |-> 1, ss |-> <<0, 1>>]>>
+
+LabRoles == {"ids", "fs_pos", "ms_pos", "fp_pos"}
+KmerRoles == {"fk_kmers", "fs_kmers", "ms_kmers", "count", "sel_kmers"}
+PrimaryDt(role) ==
+  CASE role \in KmerRoles \cup {"freq", "spacing"} -> "int64"
+    [] role \in {"fs_pos", "ms_pos", "fp_pos", "ids"} -> "uint32"
+    [] role \in MaskRoles -> "bool"
+    [] role = "code" -> "uint8"
+    [] role = "matrix" -> "int32"
+\* the form in which the check passes an argument that is not under test
+Canon(role) == Variant("c", PrimaryDt(role), FALSE, IF role \in SequenceRoles THEN "list" ELSE "ndarray")
+NoVariant == [form |-> "c", form2 |-> "c", dt |-> "doc", ro |-> FALSE, kind |-> "ndarray"]
+VariantFor(r, role, w) ==
+  IF role = r THEN Variant(IF r \in Roles2 THEN w.form2 ELSE w.form, w.dt, w.ro, w.kind)
+  ELSE IF role = "all"
+       THEN Variant(IF r \in Roles2 THEN w.form2 ELSE IF r \in MaskRoles /\ w.form # "c" THEN "off" ELSE w.form,
+                    PrimaryDt(r), FALSE, "ndarray")
+       ELSE Canon(r)
+
+LabelDtypes == {"uint32", "int64", "uint64"}
+OtherDts(role, lab) ==
+  ((CASE role \in MaskRoles -> {"uint8"} [] role = "matrix" -> SignedDtypes [] OTHER -> IntDtypes) \ {PrimaryDt(role)})
+  \cap (IF lab /\ role \in LabRoles THEN LabelDtypes ELSE IntDtypes)
+FormVariants(role, lab) ==
+  LET two == role \in Roles2
+      S == IF two THEN "f" ELSE "step2"
+      W(f, dt, ro, kd) == [form |-> IF two THEN "c" ELSE f, form2 |-> IF two THEN f ELSE "c", dt |-> dt, ro |-> ro, kind |-> kd]
+      forms == IF two THEN Forms2 ELSE Forms1
+  IN (IF FormLevel = 1
+      THEN {W(f, PrimaryDt(role), FALSE, "ndarray") : f \in forms}
+           \cup {W(f, dt, FALSE, "ndarray") : f \in {"c", S}, dt \in OtherDts(role, lab)}
+           \cup {W(f, PrimaryDt(role), TRUE, "ndarray") : f \in {"c", S}}
+      ELSE {W(f, dt, ro, "ndarray") : f \in forms, dt \in {PrimaryDt(role)} \cup OtherDts(role, lab), ro \in BOOLEAN})
+     \cup {W("c", PrimaryDt(role), FALSE, kd) : kd \in IF role = "ids" THEN {"list", "tuple"} ELSE {"list"}}
+AllVariants ==
+  {[form |-> p[1], form2 |-> p[2], dt |-> "doc", ro |-> FALSE, kind |-> "ndarray"] :
+     p \in {<<"off", "off">>, <<"step2", "f">>, <<"step3", "rowstep">>, <<"rev", "colstep">>, <<"revstep2", "rowrev">>,
+            <<"step2", "colrev">>, <<"off", "fstep">>}}
+HasMask(D) == (\E r \in DOMAIN D.refs : ~IsNone(D.refs[r].mask)) \/ ~IsNone(D.qmask)
+RolesOf(D) ==
+  IF D.lab THEN LabRoles \cup {"all"}
+  ELSE ((Roles1 \cup Roles2 \cup {"all"}) \ (IF HasMask(D) THEN {} ELSE {"imask"})) \ (IF D.sel THEN {} ELSE {"sel_kmers", "freq"})
+
+KFill == <<1, 0, 3, 2>>
+PosFill(D) == IF D.lab THEN <<ShiftLabel(D.p0, 5), ShiftLabel(D.p0, 9)>> ELSE <<9, 8, 6>>
+IdFill(D) == IF D.lab THEN <<PowerLabel(8), U32(0, 0)>> ELSE <<1, 3>>
+SortedKmers(S, A) == SetToSortSeq(S, LAMBDA a, b : KmerCode(a, A) < KmerCode(b, A))
+
+FormsViews(D, role, w) ==
+  LET A == D.A  sp == D.sp  k == Len(sp)  refs == D.refs  nr == Len(refs)
+      VO(r) == VariantFor(r, role, w)
+      cds(s) == [i \in DOMAIN s |-> KmerCode(s[i], A)]
+      km(r) == Kmers(refs[r].seq, sp)
+      selpos(r) == [i \in DOMAIN km(r) |-> IF D.lab THEN ShiftLabel(D.p0, 3 * (r - 1) + i - 1) ELSE 10 * r + 3 * i]
+      Ts == Op_FromSelection([r \in 1..nr |-> selpos(r)], [r \in 1..nr |-> km(r)], [r \in 1..nr |-> refs[r].id]).out
+      pk == SortedKmers({e[1] : e \in Ts}, A)
+      rows(x) == SetToSeq({<<e[2], e[3]>> : e \in {y \in Ts : y[1] = x}})
+      qk == SortedKmers(AllKmers(A, k), A) \o <<km(1)[1]>>
+  IN [ids      |-> <<Lay1([r \in 1..nr |-> refs[r].id], VO("ids"), IdFill(D))>>,
+      code     |-> [r \in 1..nr |-> Lay1(refs[r].seq, VO("code"), <<1, 0>>)],
+      qcode    |-> <<Lay1(D.q, VO("code"), <<1, 0>>)>>,
+      imask    |-> [r \in 1..nr |-> IF IsNone(refs[r].mask) THEN NoneV
+                                     ELSE Opt(Lay1(refs[r].mask[1], VO("imask"), <<TRUE, FALSE>>))],
+      qmask    |-> IF IsNone(D.qmask) THEN NoneV ELSE Opt(Lay1(D.qmask[1], VO("imask"), <<TRUE, FALSE>>)),
+      spacing  |-> <<Lay1(sp, VO("spacing"), <<0, 2, 1>>)>>,
+      fk_kmers |-> [r \in 1..nr |-> Lay1(cds(km(r)), VO("fk_kmers"), KFill)],
+      fk_masks |-> [r \in 1..nr |-> Lay1(KmerMask(refs[r].mask, Len(refs[r].seq), sp), VO("fk_masks"), <<FALSE, TRUE>>)],
+      fs_pos   |-> [r \in 1..nr |-> Lay1(selpos(r), VO("fs_pos"), PosFill(D))],
+      fs_kmers |-> [r \in 1..nr |-> Lay1(cds(km(r)), VO("fs_kmers"), KFill)],
+      fp_kmers |-> cds(pk),      \* the keys of the dictionary given to from_positions
+      fp_pos   |-> [i \in DOMAIN pk |-> Lay2(rows(pk[i]), 2, VO("fp_pos"), PosFill(D))],
+      ms_pos   |-> <<Lay1([i \in DOMAIN qk |-> IF D.lab THEN ShiftLabel(D.p0, 6 + i) ELSE 40 + i], VO("ms_pos"), PosFill(D))>>,
+      ms_kmers |-> <<Lay1(cds(qk), VO("ms_kmers"), KFill)>>,
+      count    |-> <<Lay1(cds(qk), VO("count"), KFill)>>,
+      matrix   |-> <<Lay2(D.M, Len(D.M), VO("matrix"), <<-1, 2, 0>>)>>,
+      sel_kmers |-> <<Lay1([i \in 1..(Len(D.ss) - 1) |-> KmerCode(KmerAt(D.ss, i - 1, Continuous(2)), A)], VO("sel_kmers"), KFill),
+                      Lay1([i \in 1..(Len(D.ss) - 2) |-> KmerCode(KmerAt(D.ss, i - 1, Continuous(3)), A)], VO("sel_kmers"), KFill)>>,
+      freq     |-> <<Lay1(SelCounts(A, 2), VO("freq"), <<3, 0, 1>>)>>]
+
+\* SyncmerSelector.select_from_kmers: the k-mers need not overlap; a k-mer is selected iff the
+\* leftmost minimum among its own s-mers sits at an allowed offset
+SyncmersOfKmers(codes, A, k, s, offsets) ==
+  LET win == k - s + 1
+      allowed == {WrapOffset(offsets[x], win) : x \in DOMAIN offsets}
+      smers(c) == LET km == KmerOfCode(c, A, k) IN [i \in 1..win |-> KmerCode(SubSeq(km, i, i + s - 1), A)]
+      pos == SelectSeq([i \in DOMAIN codes |-> i - 1], LAMBDA i : LeftmostArgMin(smers(codes[i + 1]), 0, win - 1) \in allowed)
+  IN SR("ok", [pos |-> pos, kmers |-> [i \in DOMAIN pos |-> codes[pos[i] + 1]]])
+
+\* the views of a role (ignore masks: those that are given)
+ViewSeq(V, role) ==
+  CASE role = "code"  -> V.code \o V.qcode
+    [] role = "imask" -> FlattenSeq(V.imask) \o V.qmask
+    [] role = "ids" -> V.ids [] role = "spacing" -> V.spacing
+    [] role = "fk_kmers" -> V.fk_kmers [] role = "fk_masks" -> V.fk_masks
+    [] role = "fs_pos" -> V.fs_pos [] role = "fs_kmers" -> V.fs_kmers [] role = "fp_pos" -> V.fp_pos
+    [] role = "ms_pos" -> V.ms_pos [] role = "ms_kmers" -> V.ms_kmers [] role = "count" -> V.count
+    [] role = "matrix" -> V.matrix [] role = "sel_kmers" -> V.sel_kmers [] role = "freq" -> V.freq
+
+FormsRes(D, V) ==
+  LET A == D.A  k == Len(D.sp)  nr == Len(D.refs)
+      ids == Value1(V.ids[1])
+      spv == Value1(V.spacing[1])
+      dec(v) == DecodeKmers(Value1(v), A, k)
+      Ts == Op_FromSelection([r \in 1..nr |-> Value1(V.fs_pos[r])], [r \in 1..nr |-> dec(V.fs_kmers[r])], ids).out
+      rq == [r \in 1..nr |-> [id |-> ids[r], seq |-> Value1(V.code[r]),
+                              mask |-> IF V.imask[r] = NoneV THEN NoneV ELSE Opt(Value1(V.imask[r][1]))]]
+      Tq == TableOf(rq, spv)
+      qm == IF V.qmask = NoneV THEN NoneV ELSE Opt(Value1(V.qmask[1]))
+      rule == Opt([M |-> Value2(V.matrix[1]), t |-> D.t])
+      q == Value1(V.qcode[1])
+      x2 == Value1(V.sel_kmers[1])  x3 == Value1(V.sel_kmers[2])  f == Value1(V.freq[1])
+      kms == SortedKmers(AllKmers(A, k), A)
+  IN [Tk     |-> Op_FromKmers([r \in 1..nr |-> dec(V.fk_kmers[r])], ids, [r \in 1..nr |-> Value1(V.fk_masks[r])]).out,
+      Ts     |-> Ts,
+      Tp     |-> Op_FromPositions([i \in DOMAIN V.fp_pos |-> <<KmerOfCode(V.fp_kmers[i], A, k), Value2(V.fp_pos[i])>>]).out,
+      Tq     |-> Tq,
+      sel    |-> Op_MatchSelection(Ts, Value1(V.ms_pos[1]), dec(V.ms_kmers[1])).out,
+      counts |-> Op_Count(Ts, dec(V.count[1])).out,
+      match  |-> Op_Match(Tq, q, qm, NoneV, spv).out,
+      matchr |-> Op_Match(Tq, q, NoneV, rule, spv).out,
+      kmers  |-> Op_CreateKmers(q, spv, A).out,
+      sim    |-> [i \in DOMAIN kms |-> {KmerCode(b, A) : b \in SimilarSet(rule, kms[i], A)}],
+      mini   |-> IF D.sel THEN Op_Minimizers(x2, x2, 2) ELSE SR("Rejected", <<>>),
+      minif  |-> IF D.sel THEN Op_Minimizers(x2, FreqKeys(f, x2), 3) ELSE SR("Rejected", <<>>),
+      sync   |-> IF D.sel THEN SyncmersOfKmers(x3, A, 3, 2, <<0>>) ELSE SR("Rejected", <<>>),
+      minc   |-> IF D.sel THEN Op_Mincode(x2, FreqKeys(f, x2), 0, NumCodes(A, 2), 2) ELSE SR("Rejected", <<>>)]
+
+VariedRoles(role) == IF role = "all" THEN Roles1 \cup Roles2 ELSE {role}
+FormsExp(D, role, w) ==
+  LET V == FormsViews(D, role, w)
+      varied == UNION {ToSet(ViewSeq(V, r)) : r \in VariedRoles(role)}
+  IN [data  |-> D,
+      k     |-> Len(D.sp),
+      views |-> V,
+      res   |-> FormsRes(D, V),
+      \* must every call that takes the varied argument(s) succeed?
+      oc    |-> IF \A r \in VariedRoles(role) : \A v \in ToSet(ViewSeq(V, r)) : MustAccept(r, v) THEN "ok" ELSE "OkOrRejected",
+      \* some varied view tells the value from a dense read of its cells
+      disc  |-> \E v \in varied : v.kind = "ndarray" /\ Discriminates(v)]
+      \* (after every call each buffer holds Frame(view) = view.buf: the driver compares the
+      \*  caller's buffers with the `buf` printed here)
+
 (* ------------------------------------------------------------------ Init / Next *)
 (* root -> one "chunk" state per group of inputs -> the inputs.  (TLC evaluates initial states
    and their invariants in one thread; successors of different chunk states are generated and
@@ -263,6 +440,7 @@ Chunks ==
   \cup {<<"table", g[1], g[2]>> : g \in TableGroups}
   \cup UNION {{<<"similar", cs, d>> : d \in cs.V \X cs.V \X cs.V} : cs \in SimCases}   \* d = M[1][1], M[1][2], M[2][2]
   \cup {<<"seltab", a>> : a \in BoundaryLabels}
+  \cup UNION {{<<"forms", d, role>> : role \in RolesOf(FormData[d])} : d \in DOMAIN FormData}
   \cup {<<"mini", v, w>> : v \in 0..3, w \in 2..4}
   \cup {<<"select", A, v>> : A \in {2, 3}, v \in {0, 1}}
 
@@ -286,6 +464,9 @@ Expand(c) ==
     [] c[1] = "seltab" ->
          \E p \in BoundaryLabels : \E sh \in DOMAIN SelShapes :
            LET x == SelTabInput(c[2], p, sh) IN Set("seltab", x, SelTabExp(x))
+    [] c[1] = "forms" ->
+         \E w \in (IF c[3] = "all" THEN AllVariants ELSE FormVariants(c[3], FormData[c[2]].lab)) :
+           Set("forms", [d |-> c[2], role |-> c[3], w |-> w], FormsExp(FormData[c[2]], c[3], w))
     [] c[1] = "mini" ->
          \E rest \in SeqsLen(0..3, 0, MiniLen - 1) :
            LET row == <<c[2]>> \o rest IN Set("mini", [row |-> row, w |-> c[3]], MiniExp(row, c[3]))
@@ -409,6 +590,30 @@ InvSelTab ==
                  /\ BucketLookup(B, exp.codes[i][1], A, nb) = exp.lookups[i]
             /\ BucketMatchSelection(B, exp.sel.pos, exp.sel.kmers, A, nb) = exp.sel.out
             /\ BucketMatchTable(B, C, NoneV, A, nb) = exp.tmatch
+
+(* memory form: every view is a legal numpy view that denotes the intended value, so the answers
+   are those of the canonical call (form transparency); the builders agree; what the check
+   passes for role "all" has to be accepted *)
+Dom_Cells(v, r, lab) ==
+  IF r \in MaskRoles THEN v.dt \in {"bool", "uint8"} /\ \A c \in DOMAIN v.buf : v.buf[c] \in BOOLEAN
+  ELSE IF lab /\ r \in LabRoles THEN v.dt \in LabelDtypes /\ \A c \in DOMAIN v.buf : Dom_Label(v.buf[c])
+  ELSE /\ v.dt \in IntDtypes
+       /\ \A c \in DOMAIN v.buf : v.buf[c] \in (IF v.dt \in SignedDtypes THEN -128 ELSE 0)..127
+InvForms ==
+  kind = "forms" =>
+    LET D == FormData[inp.d]  V == exp.views  A == D.A IN
+    /\ \A r \in Roles1 \cup Roles2 : \A i \in DOMAIN ViewSeq(V, r) :
+         LET v == ViewSeq(V, r)[i] IN
+         /\ Dom_View(v) /\ Dom_Cells(v, r, D.lab)
+         /\ (Contiguous(v) => ~Discriminates(v))
+         /\ Frame(v) = v.buf
+    /\ exp.res = FormsRes(D, FormsViews(D, "none", NoVariant))
+    /\ (inp.role = "all" => exp.oc = "ok" /\ exp.disc)
+    /\ exp.res.Tp = exp.res.Ts
+    /\ exp.res.Tk = exp.res.Tq
+    /\ Dom_Selection(Value1(V.ms_pos[1]), Value1(V.ms_kmers[1]))
+    \* k-mers taken from one sequence: selection from the k-mers = selection on the sequence
+    /\ D.sel => exp.res.sync = Op_Syncmers(Value1(V.sel_kmers[2]), Value1(V.sel_kmers[1]), 3, 2, <<0>>)
 
 InvMini ==
   kind = "mini" =>
